@@ -587,6 +587,10 @@ val versions_own : (blk0 * z) list -> pev list -> bool
 
 val op_ok : pev list -> bool
 
+val is_failure : pev -> bool
+
+val scan_loads_covered : pev list -> bool
+
 val scan_ok : pev list -> bool
 
 type tid0 = nat
